@@ -219,6 +219,35 @@ async def _iterate_until_complete(aiterator, output_queue):
     output_queue.put(elem)
 
 
+class _DeliverOnceQueue:
+  """Result queue of one generator task that can be closed by the scheduler.
+
+  The coroutine iterating a generator task delivers the generator's returned
+  state when it sees the end marker, slightly before it is done. A scheduler that
+  gives up on the task in between (the worker left, a timeout) has to know whether
+  the state was delivered: after `close()` nothing is delivered any more, and its
+  return value tells whether something had been.
+  """
+
+  def __init__(self, result_queue: queue.SimpleQueue[Any]):
+    self._queue = result_queue
+    self._lock = threading.Lock()
+    self._closed = False
+    self._delivered = False
+
+  def put(self, value: Any):
+    with self._lock:
+      if not self._closed:
+        self._delivered = True
+        self._queue.put(value)
+
+  def close(self) -> bool:
+    """Stops further deliveries, returns whether nothing was delivered."""
+    with self._lock:
+      self._closed = True
+      return not self._delivered
+
+
 class WorkerPool:
   """Worker group that constructs a group of courier workers.
 
@@ -451,6 +480,7 @@ class WorkerPool:
     tasks: list[GeneratorTask] = []
     timeout_tasks: list[GeneratorTask] = []
     running_workers: set[courier_utils.CourierClient] = set()
+    result_queues: dict[Any, _DeliverOnceQueue] = {}
     running_total, finished_cnt, timeout_cnt = 0, 0, 0
     batch_cnt = 0
 
@@ -478,9 +508,10 @@ class WorkerPool:
             logging.info(
                 'chainable: %s', f'submitting task to worker {worker.address}'
             )
+            task_result_queue = _DeliverOnceQueue(generator_result_queue)
             aiter_until_complete = _iterate_until_complete(
                 worker.async_iterate(
-                    task, generator_result_queue=generator_result_queue
+                    task, generator_result_queue=task_result_queue
                 ),
                 output_queue=output_queue,
             )
@@ -489,6 +520,7 @@ class WorkerPool:
                     aiter_until_complete, event_loop
                 ),
             )
+            result_queues[task.state] = task_result_queue
             running_tasks.append(task)
         while not output_queue.empty():
           batch_cnt += 1
@@ -514,11 +546,16 @@ class WorkerPool:
               finished_cnt += 1
           elif task.is_alive:
             still_running_tasks.append(task)
-          else:
+          elif result_queues[task.state].close():
             logging.warning(
                 'chainable: %s', f'worker timeout, worker: {task.worker}'
             )
             timeout_tasks.append(task.set(_exc=None))
+          else:
+            # The worker left right after the end of its generator: the state
+            # is delivered, only the task was not marked done yet. Retrying it
+            # would deliver (and merge) the state a second time.
+            finished_cnt += 1
         running_tasks = still_running_tasks
         # Preemptively cancel task from the timeout workers.
         for task in timeout_tasks:
